@@ -177,7 +177,7 @@ theorem src_port_close (p : Port) :
       have hr := src_port_reset p
       have hopen := userReset_open p hc'
       have htc : (MonadExceptOf.tryCatch (Src.BaseOutput.reset modelPortExt) (fun e =>
-            if (e == Err.OSError || e == Err.EOFError) = true then (pure () : PM _ Unit) else throw e)) p.toSrc
+            if (e == Err.OSError) = true then (pure () : PM _ Unit) else throw e)) p.toSrc
           = (.ok (), (Port.resetSends resetIds p).toSrc) := by
         show PM.tryCatch' _ _ _ = _
         simp only [PM.tryCatch', hr, hopen]
